@@ -553,7 +553,11 @@ func (vc *VC) fieldsOf(t types.Type) []fieldInfo {
 	}
 	for i := 0; i < st.NumFields(); i++ {
 		f := st.Field(i)
-		out = append(out, fieldInfo{f.Name(), f.Type(), vc.sortOf(f.Type())})
+		name := f.Name()
+		if name == "_" {
+			name = fmt.Sprintf("_%d", i) // blank fields need distinct accessor names
+		}
+		out = append(out, fieldInfo{name, f.Type(), vc.sortOf(f.Type())})
 	}
 	return out
 }
